@@ -7,7 +7,6 @@ package twins
 
 import (
 	"context"
-	"crypto/ecdsa"
 	"fmt"
 	"math/rand"
 	"reflect"
@@ -284,6 +283,7 @@ type wSpec struct {
 	withhold  bool
 	cache     uint
 	fetchFail float64
+	crypto    string // signature scheme: ecdsa (default), eddsa, bls12
 }
 
 func newWorld(spec wSpec) (*wWorld, error) {
@@ -304,11 +304,24 @@ func newWorld(spec wSpec) (*wWorld, error) {
 		}
 		return false
 	}
-	keys := map[hotstuff.ID]*ecdsa.PrivateKey{}
+	scheme := spec.crypto
+	if scheme == "" {
+		scheme = crypto.NameECDSA
+	}
+	keys := map[hotstuff.ID]hotstuff.PrivateKey{}
 	var ids []NodeID
 	for i := 1; i <= spec.n; i++ {
 		id := hotstuff.ID(i)
-		k, err := keygen.GenerateECDSAPrivateKey()
+		var k hotstuff.PrivateKey
+		var err error
+		switch scheme {
+		case crypto.NameEDDSA:
+			_, k, err = keygen.GenerateED25519Key()
+		case crypto.NameBLS12:
+			k, err = crypto.GenerateBLS12PrivateKey()
+		default:
+			k, err = keygen.GenerateECDSAPrivateKey()
+		}
 		if err != nil {
 			return nil, err
 		}
@@ -320,7 +333,7 @@ func newWorld(spec wSpec) (*wWorld, error) {
 	}
 	w.order = ids
 	for _, nid := range ids {
-		nd, err := w.newNode(nid, keys[nid.ReplicaID], isIn(spec.byz, nid.ReplicaID), isIn(spec.twins, nid.ReplicaID), spec.cache)
+		nd, err := w.newNode(nid, keys[nid.ReplicaID], scheme, isIn(spec.byz, nid.ReplicaID), isIn(spec.twins, nid.ReplicaID), spec.cache)
 		if err != nil {
 			return nil, err
 		}
@@ -330,13 +343,14 @@ func newWorld(spec wSpec) (*wWorld, error) {
 	for _, nd := range w.nodes {
 		for i := 1; i <= spec.n; i++ {
 			id := hotstuff.ID(i)
-			nd.config.AddReplica(&hotstuff.ReplicaInfo{ID: id, PubKey: keys[id].Public()})
+			// connection metadata carries e.g. the BLS proof of possession of that replica
+			nd.config.AddReplica(&hotstuff.ReplicaInfo{ID: id, PubKey: keys[id].Public(), Metadata: w.byID[id][0].config.ConnectionMetadata()})
 		}
 	}
 	return w, nil
 }
 
-func (w *wWorld) newNode(nid NodeID, pk *ecdsa.PrivateKey, byz, twin bool, cache uint) (*wNode, error) {
+func (w *wWorld) newNode(nid NodeID, pk hotstuff.PrivateKey, scheme string, byz, twin bool, cache uint) (*wNode, error) {
 	opts := []core.RuntimeOption{core.WithSyncVerification()}
 	if cache > 0 {
 		opts = append(opts, core.WithCache(cache))
@@ -350,7 +364,7 @@ func (w *wWorld) newNode(nid NodeID, pk *ecdsa.PrivateKey, byz, twin bool, cache
 	logger := logging.NewWithDest(nullWriter{}, fmt.Sprintf("r%dn%d", nid.ReplicaID, nid.TwinID))
 	nd.eventLoop = eventloop.New(logger, 1000)
 	sender := &wSender{w: w, node: nd}
-	base, err := crypto.New(nd.config, crypto.NameECDSA)
+	base, err := crypto.New(nd.config, scheme)
 	if err != nil {
 		return nil, err
 	}
